@@ -184,7 +184,7 @@ func (o *c09) Step(r *StepRec) []Violation {
 			}
 		}
 		if p0.State == stCompleted && a.Kind != KRestart {
-			if p1.BatchCounter != p0.BatchCounter || !sameAddrs(provHexes(p0), provHexes(p1)) || !p0.ServiceFeeCap.IsEqual(p1.ServiceFeeCap) ||
+			if p1.BatchCounter != p0.BatchCounter || !sameAddrs(provHexes(p0), provHexes(p1)) || p0.ServiceFeeCap.String() != p1.ServiceFeeCap.String() ||
 				p0.Timeout != p1.Timeout || p0.RepeatedFrequency != p1.RepeatedFrequency || p0.RepeatedTotal != p1.RepeatedTotal ||
 				p0.ResponseThreshold != p1.ResponseThreshold {
 				o.fail("c09:completed_final:"+a.Kind, "completed context %s was modified in %s", short(id), a.Kind)
@@ -198,6 +198,23 @@ func (o *c09) Step(r *StepRec) []Violation {
 				o.fail("c09:counter:"+a.Kind, "batch counter of %s went %d -> %d in %s (state %s -> %s)", short(id), p0.BatchCounter, p1.BatchCounter, a.Kind, stateName(p0.State), stateName(p1.State))
 			}
 			o.hit("batch_started")
+		}
+	}
+	// the counter advances by one per issued *or skipped* batch: a running context whose batch came due in
+	// this block and that is still running afterwards has had its batch issued or skipped
+	if a.Kind == KEndBlock && r.OK {
+		for _, cid := range batchCandidates(pre, r.Height) {
+			p0 := pre.Ctxs[cid]
+			p1, alive := post.Ctxs[cid]
+			if p0.State != stRunning || !alive || p1.State != stRunning {
+				continue
+			}
+			if p1.BatchCounter == p0.BatchCounter {
+				o.fail("c09:due_not_counted", "context %s was running with a batch due at height %d and is still running, but its batch counter stayed %d (neither issued nor skipped)",
+					short(cid), r.Height, p0.BatchCounter)
+			} else if len(NewReqs(r)) == 0 {
+				o.hit("skipped_batch_counted")
+			}
 		}
 	}
 	// batches are issued only while running
